@@ -474,6 +474,7 @@ func check(args []string) int {
 			counted++
 		}
 	}
+	engineReplays := 0
 	for i, e := range engineErrs {
 		fmt.Println("ENGINE:", e.msg)
 		for _, p := range propsOf(e.props) {
@@ -484,12 +485,30 @@ func check(args []string) int {
 			}
 			os.MkdirAll(replayDir, 0o755)
 			path := filepath.Join(replayDir, fmt.Sprintf("engine-%d.json", i))
-			writeJSON(path, &replayFile{Property: p, Obligation: name, Function: e.fn, Pkg: e.pkg, Kind: "generate", EngineErr: e.msg,
+			erf := &replayFile{Property: p, Obligation: name, Function: e.fn, Pkg: e.pkg, Kind: "generate", EngineErr: e.msg,
 				Goal: "all obligations of " + e.fn + " can be generated from the current source", Result: "undischarged",
-				Replayed: "no counterexample: obligations could not be generated", Note: "the function left the verified subset or its contract no longer matches the code; the proofs that held on the pinned tree no longer exist"})
+				Replayed: "no counterexample: obligations could not be generated", Note: "the function left the verified subset or its contract no longer matches the code; the proofs that held on the pinned tree no longer exist"}
+			writeJSON(path, erf)
+			reproduced := false
+			if !*noReplay && engineReplays < 3 {
+				// the scenario drivers choose their scenario from the function named in the obligation: run it
+				// against the real code so that the report carries a failing history where there is one
+				engineReplays++
+				var msg string
+				msg, reproduced = runReplay(*repo, erf, path)
+				if reproduced {
+					erf.Replayed = msg
+					writeJSON(path, erf)
+					fmt.Printf("    replay: %s\n", trim(msg, 500))
+				}
+			}
 			violations++
 			counted++
-			fmt.Printf("VIOLATION property=%s replay=%s no-failing-input-found\n", p, path)
+			if reproduced {
+				fmt.Printf("VIOLATION property=%s replay=%s\n", p, path)
+			} else {
+				fmt.Printf("VIOLATION property=%s replay=%s no-failing-input-found\n", p, path)
+			}
 		}
 	}
 	wall := time.Since(start).Seconds()
